@@ -97,6 +97,9 @@ func loadKnown() []knownFinding {
 
 // replay runs one saved case; returns 0 ok, 1 violation, 2 inconclusive.
 func replay(path string, race bool) (int, string) {
+	if strings.HasSuffix(path, ".fuzz") {
+		return replayFuzz(path)
+	}
 	env := goEnv()
 	if race {
 		env = append(env, "LHEXEC="+filepath.Join(verifDir, "bin/lhexec-race"))
